@@ -33,8 +33,8 @@ def rationalise(arr, nd):
         for row in a:
             r = []
             for x in row:
-                if x != x or math.isinf(x):
-                    return [[0]], 0
+                if x != x or math.isinf(x) or abs(x) > 1e6:
+                    return [[0]], 0          # not a small rational (also keeps TLC's 32-bit integers safe)
                 f = Fraction(float(x)).limit_denominator(5000)
                 if abs(float(f) - float(x)) > 1e-11 * max(1.0, abs(x)):
                     return [[0]], 0
@@ -172,7 +172,7 @@ def run_c12(it):
         a = np().asarray(r, dtype=float)
         if nd == 1:
             a = a.reshape(-1, 1)
-        if not np().all(np().isfinite(a)):
+        if not np().all(np().isfinite(a)) or np().any(np().abs(a) > 1e6):
             probs.append({"route": name + ":not-finite", "lo": [[10 ** 7]], "hi": [[-10 ** 7]]})
             return
         probs.append({"route": name, "lo": [[int(math.floor(x * 1000)) for x in row] for row in a],
